@@ -244,15 +244,29 @@ def main():
         # (H) through the library
         obs = {i: {} for i in idx}
 
-        def lib_run(mode, nthreads, rep):
+        def lib_run(mode, nthreads, rep, shards=1):
             e = dict(env)
             if nthreads:
                 e["OMP_NUM_THREADS"] = str(nthreads)
                 e["OMP_DYNAMIC"] = "false"
-            r = R20.run_driver_lines([drv], [R20.driver_line(mode, prepared[i][0], prepared[i][3]) for i in idx], e)
-            return ("%s%s%s" % (mode, ("[t=%d]" % nthreads) if nthreads else "", ("#%d" % rep) if rep else ""), r)
+            parts = [idx[k::shards] for k in range(shards)]
+            res = {}
 
-        first = [lib_run("serial", 0, 0), lib_run("openmp", threads[0], 0)]      # these two JIT-build the kernels
+            def one(part):
+                return part, R20.run_driver_lines([drv], [R20.driver_line(mode, prepared[i][0], prepared[i][3]) for i in part], e)
+            with ThreadPoolExecutor(max_workers=shards) as ex2:
+                for part, r in ex2.map(one, [p for p in parts if p]):
+                    for i, x in zip(part, r):
+                        res[i] = x
+            return ("%s%s%s" % (mode, ("[t=%d]" % nthreads) if nthreads else "", ("#%d" % rep) if rep else ""),
+                    [res.get(i, "MISSING") for i in idx])
+
+        # the first Serial and the first OpenMP run JIT-build the kernels: sharded over processes, both at once
+        nsh = max(1, min(jobs // 2, len(idx)))
+        with ThreadPoolExecutor(max_workers=2) as ex:
+            f1 = ex.submit(lib_run, "serial", 0, 0, nsh)
+            f2 = ex.submit(lib_run, "openmp", threads[0], 0, nsh)
+            first = [f1.result(), f2.result()]
         rest = [(t, rep) for t in threads for rep in range(reps) if not (t == threads[0] and rep == 0)]
         with ThreadPoolExecutor(max_workers=max(1, min(jobs // 2, len(rest) or 1))) as ex:
             more = list(ex.map(lambda tr: lib_run("openmp", tr[0], tr[1]), rest))
